@@ -109,6 +109,7 @@ def forwardReqUnrepaired (r : Req) : Req := proxySend r.conn r
 inductive Step
   | reply400                                   -- "missing endpoint id"
   | serve (e : String) (u : Nat)               -- proxied to local upstream `u` of endpoint `e`
+  | dialGone (e : String) (u : Nat)            -- local upstream `u` answered `ErrGone`: removed, 502
   | forward (e : String) (cands : List Cluster.Node) (req' : Req)
                                                -- proxied to one of `cands` (rows of this node's view)
   | reply502                                   -- "no available upstreams"
@@ -116,13 +117,18 @@ inductive Step
 deriving Repr
 
 /-- `proxyHTTPRoute`/`proxyTCPRoute` followed by `HTTPProxy.ServeHTTP`/`TCPProxy.ServeHTTP`
-on the node whose manager (registry + routing view) is `m`. -/
-def handle (lib : Lib) (m : Mgr) (r : Req) : Step × Mgr :=
+on the node whose manager (registry + routing view) is `m`.  `gone e u` says whether the local
+upstream `u` of endpoint `e` answers `Dial()` with `upstream.ErrGone` (its listener sent a yamux
+GoAway but the session is still registered): `HTTPProxy.dialUpstream` / `TCPProxy.ServeHTTP`
+then call `RemoveConn(u)` and the request is answered 502 "upstream unreachable" (the reverse
+proxy's `errorHandler` resp. `errorResponse`) - it is **not** re-selected and not forwarded. -/
+def handle (lib : Lib) (gone : String → Nat → Bool) (m : Mgr) (r : Req) : Step × Mgr :=
   match endpointOf lib r with
   | none => (.reply400, m)
   | some e =>
     match m.select e (!r.forwarded) with
-    | (.localUp u, m') => (.serve e u, m')
+    | (.localUp u, m') =>
+      if gone e u then (.dialGone e u, m'.removeConn { id := u, ep := e }) else (.serve e u, m')
     | (.remote _, m') => (.forward e (m.cluster.lookupCandidates e) (forwardReq r), m')
     | (.notFound, m') => (.reply502, m')
     | (.nilTrue, m') => (.fault, m')
@@ -133,12 +139,18 @@ listening sockets (`proxy address ↦ id of the node that really listens there`)
 structure World where
   nodes : AMap String Mgr
   listen : AMap String String
+  /-- local upstreams `(node, endpoint, upstream)` whose `Dial()` answers `ErrGone` -/
+  gone : List (String × String × Nat) := []
 deriving Repr, Inhabited
+
+/-- does upstream `u` of endpoint `e` connected to node `n` answer `ErrGone`? -/
+def World.isGone (w : World) (n e : String) (u : Nat) : Bool := w.gone.contains (n, e, u)
 
 inductive Outcome
   | badRequest (node : String)                   -- 400 produced by `node`
   | served (node : String) (e : String) (u : Nat)  -- delivered to upstream `u` of `e` connected to `node`
   | noUpstream (node : String)                   -- 502 "no available upstreams" produced by `node`
+  | gone (node : String) (e : String) (u : Nat)  -- 502 "upstream unreachable": `u` answered `ErrGone` and was removed
   | unreachable                                  -- 502 "upstream unreachable": the dial failed
   | fault (node : String)
   | outOfFuel
@@ -162,9 +174,10 @@ def routeAt (lib : Lib) : Nat → World → String → Req → List Nat → Resu
     match w.nodes.find n with
     | none => ({ outcome := .unreachable }, w)
     | some m =>
-      match handle lib m r with
+      match handle lib (w.isGone n) m r with
       | (.reply400, m') => ({ visited := [n], outcome := .badRequest n }, { w with nodes := w.nodes.insert n m' })
       | (.serve e u, m') => ({ visited := [n], outcome := .served n e u }, { w with nodes := w.nodes.insert n m' })
+      | (.dialGone e u, m') => ({ visited := [n], outcome := .gone n e u }, { w with nodes := w.nodes.insert n m' })
       | (.reply502, m') => ({ visited := [n], outcome := .noUpstream n }, { w with nodes := w.nodes.insert n m' })
       | (.fault, m') => ({ visited := [n], outcome := .fault n }, { w with nodes := w.nodes.insert n m' })
       | (.forward _ cands r', m') =>
